@@ -4,7 +4,7 @@
 // pending at the moment the link layer scheduled the next event ( = what plan_next_connection_event() saw ).
 //
 // build variants: -DC23_LL=0 default configuration, latency 3      =1 peripheral_latency_strict_plus, latency 2
-//                 =2 listen_if_pending_transmit_data only, latency 5   =3 set< configuration<>, pending+unacknowledged >, latency 3
+//                 =2 listen_if_pending_transmit_data only, latency 1   =3 set< configuration<>, pending+unacknowledged >, latency 3
 //                 =4 peripheral_latency_ignored, latency 3
 #include "../mc/mc.hpp"
 #include <bluetoe/server.hpp>
@@ -112,7 +112,7 @@ using pend_unack_t = bll::peripheral_latency_configuration< pl::listen_if_pendin
     static const unsigned cfg_masks[] = { RXNE | MD }; static const char* const cfg_name = "peripheral_latency_strict_plus"; static const unsigned latency = 2;
 #elif C23_LL == 2
     using option_t = pend_t;
-    static const unsigned cfg_masks[] = { PEND }; static const char* const cfg_name = "listen_if_pending_transmit_data"; static const unsigned latency = 5;
+    static const unsigned cfg_masks[] = { PEND }; static const char* const cfg_name = "listen_if_pending_transmit_data"; static const unsigned latency = 1;
 #elif C23_LL == 3
     using option_t = bll::peripheral_latency_configuration_set< none_t, pend_unack_t >;
     static const unsigned cfg_masks[] = { 0, PEND | UNACK }; static const char* const cfg_name = "set<none,pending+unacknowledged>"; static const unsigned latency = 3;
@@ -373,6 +373,14 @@ struct World
             if ( disarmed && !rescheduled ) c.fail( "ll-pull-back:disarmed-but-not-scheduled-again", c.obs );
             else if ( !disarmed && rescheduled ) c.fail( "ll-pull-back:scheduled-again-without-disarm", c.obs );
             else if ( !disarmed && ( back != 0 || after.index != before.index || after.time != before.time ) ) c.fail( "ll-pull-back:refused-but-state-changed", c.obs );
+            {
+                // see C23_latency_state.cpp: listening on pending transmit data, an event is skipped, the radio leaves room
+                const std::uint32_t now_events = std::uint32_t( ( T + I - 1 ) / I );
+                const bool possible = ev != ev_cancel0 && ( cfg_masks[ ref.cfg ] & PEND ) && ref.passed == 0 && !ref.pulled && ref.since >= 2 && std::max< std::uint32_t >( 1, now_events ) < ref.since;
+                if ( c.fails.empty() && possible && !disarmed ) c.fail( "ll-pull-back:radio-not-asked-although-event-is-skipped", mc::fmt( "%s: next event %u intervals after the anchor; %s", cfgkind().c_str(), ref.since, c.obs.c_str() ) );
+                else if ( c.fails.empty() && possible && back == 0 ) c.fail( "ll-pull-back:event-not-moved-although-possible", mc::fmt( "%s: next event %u intervals after the anchor; %s", cfgkind().c_str(), ref.since, c.obs.c_str() ) );
+                if ( possible ) c.cls( mc::fmt( "ll-cancel:possible:planned-%s-ahead", ref.since == 2 ? "2" : ref.since == 3 ? "3" : "4+" ) );
+            }
             if ( !c.fails.empty() || !disarmed )
             {
                 if ( c.fails.empty() ) c.cls( mc::fmt( "ll-cancel:%s", asked ? "radio-refused" : ref.pulled ? "not-tried-again-after-pull-back" : ref.since - ref.passed == 1 ? "not-tried:nothing-to-gain" : "not-tried" ) );
